@@ -1,0 +1,18 @@
+//go:build verif
+
+package croncontroller
+
+import (
+	"k8s.io/client-go/util/workqueue"
+
+	"github.com/furiko-io/furiko/pkg/execution/util/cronschedule"
+)
+
+// VerifSetQueue replaces the controller's workqueue.
+func (c *Context) VerifSetQueue(q workqueue.RateLimitingInterface) { c.queue = q }
+
+// VerifNewEnqueueHandler returns the controller's real enqueue handler.
+func VerifNewEnqueueHandler(c *Context) EnqueueHandler { return newEnqueueHandler(c) }
+
+// VerifSchedule returns the worker's schedule (nil before Init).
+func (w *CronWorker) VerifSchedule() *cronschedule.Schedule { return w.schedule }
